@@ -573,10 +573,11 @@ pub fn probe_set_iterators(rebuild: &dyn Fn() -> SetSut, s: &mut SetSut, univers
         for mask in 0..(1u32 << n) {
             let sel = |id: u8| ids.iter().position(|&x| x == id).map_or(false, |p| mask >> p & 1 == 1);
             let total = (0..n).filter(|p| mask >> p & 1 == 1).count();
-            for cut in 0..=total {
+            for (cut, fin) in (0..=total).flat_map(|c| [(c, 0u8), (c, 1u8)]) {
                 let mut t = rebuild();
                 let mut visited = Vec::new();
                 let mut yielded = Vec::new();
+                let mut rest = 0usize;
                 {
                     let mut it = t.set.extract_if(|k| {
                         visited.push(k.id);
@@ -588,12 +589,20 @@ pub fn probe_set_iterators(rebuild: &dyn Fn() -> SetSut, s: &mut SetSut, univers
                             None => return Err("set.extract_if ended early".into()),
                         }
                     }
-                    if cut == total && it.next().is_some() {
+                    if fin == 1 {
+                        rest = it.count();
+                        if cut + rest != total {
+                            return Err(format!("set.extract_if(mask {mask:#b}): {cut} next() calls then count() = {rest}, predicate selects {total}"));
+                        }
+                    } else if cut == total && it.next().is_some() {
                         return Err("set.extract_if yielded an element the predicate did not select".into());
                     }
                 }
+                if fin == 1 && visited.len() != n {
+                    return Err(format!("set.extract_if: next() x {cut} then count() visited {} of {n} elements", visited.len()));
+                }
                 let removed: Vec<u8> = visited.iter().copied().filter(|&id| sel(id)).collect();
-                if removed.len() != yielded.len() || yielded.iter().any(|y| !sel(*y)) {
+                if removed.len() != yielded.len() + rest || yielded.iter().any(|y| !sel(*y)) {
                     return Err(format!("set.extract_if(mask {mask:#b}, cut {cut}): yielded {:?}, selected among visited {:?}", yielded, removed));
                 }
                 t.model.retain(|e| !removed.contains(&e.0));
@@ -779,6 +788,48 @@ pub fn check_pair(mk_a: &dyn Fn(bool) -> SetSut, mk_b: &dyn Fn() -> SetSut, univ
         a2.check_all(universe, false).map_err(|m| format!("after {name} (A = {:?}, B = {:?}): {m}", ia, ib))?;
         a2.finish().map_err(|m| format!("after {name}: {m}"))?;
         n += 1;
+    }
+    // clone_from(A <- B) and clone(): equal to the source, independently owned, hashing like the source
+    {
+        let mut a3 = mk_a(false);
+        let b_serials: Vec<u32> = b.set.iter().map(|k| k.serial).collect();
+        a3.set.clone_from(&b.set);
+        if !(a3.set == b.set && b.set == a3.set) {
+            return Err(format!("clone_from: target (was {:?}) does not compare equal to its source {:?}", ia, ib));
+        }
+        if a3.set.iter().any(|k| b_serials.contains(&k.serial)) {
+            return Err("clone_from: target shares an element instance with the source".into());
+        }
+        a3.alt = b.alt;
+        a3.model = b.model.clone();
+        a3.check_all(universe, false).map_err(|m| format!("clone_from target (was {:?}, source {:?}): {m}", ia, ib))?;
+        // independence, both directions
+        let absent = (0..universe).find(|id| !ib.contains(id));
+        let present = ib.iter().next().copied();
+        if let Some(x) = absent {
+            a3.set.insert(TKey::make(x, 900));
+            a3.model.push((x, 900));
+        }
+        if let Some(p) = present {
+            a3.set.remove(&KeyRef(p));
+            let i = a3.mpos(p).unwrap();
+            a3.model.swap_remove(i);
+        }
+        a3.check_all(universe, false).map_err(|m| format!("clone_from target after mutating it: {m}"))?;
+        let c = b.set.clone();
+        if !(c == b.set && b.set == c) || c.len() != ib.len() {
+            return Err(format!("clone() of {:?} does not compare equal to it", ib));
+        }
+        let mut cs = SetSut { set: c, model: b.model.clone(), next_tok: 5000, class_of: b.class_of.clone(), base: Baseline::take(), alt: b.alt };
+        cs.check_all(universe, false).map_err(|m| format!("clone() of {:?}: {m}", ib))?;
+        if let Some(x) = absent {
+            cs.set.insert(TKey::make(x, 901));
+            cs.model.push((x, 901));
+            cs.check_all(universe, false).map_err(|m| format!("clone() after an insertion: {m}"))?;
+        }
+        drop(cs.set);
+        a3.finish().map_err(|m| format!("after clone_from: {m}"))?;
+        n += 3;
     }
     // B must be untouched
     let mut b = b;
